@@ -795,6 +795,25 @@ def main(tier: str) -> int:
     for c, o in list(zip(cases, obs))[ncorp:ncorp + 2]:
         run.add_sample({"case": c, "impl": {k: o.get(k) for k in ("snaps", "trace", "ntfs")}})
 
+    # a deviation must reproduce when the same case is run again in a new interpreter (the property is about a
+    # deterministic function; an observation that does not reproduce is a thread-timing artefact of the harness /
+    # C04's ground and is recorded, not reported)
+    unconfirmed = []
+    for sig, (i, bad) in list(bads.items()):
+        again = []
+        for _ in range(2):
+            try:
+                b2, _ = oracle(cases[i], run_impl([cases[i]], nproc=1)[0])
+            except Exception:  # noqa
+                b2 = None
+            again.append(bool(b2))
+        if not any(again):
+            unconfirmed.append({"signature": sig, "what": bad[1][:300], "case_index": i})
+            del bads[sig]
+    if unconfirmed:
+        run.cov["unconfirmed_observations"] = unconfirmed
+        run.notes.append(f"{len(unconfirmed)} deviation(s) did not reproduce on re-running the same case and were not reported")
+
     for sig, (i, bad) in list(bads.items())[:3]:
         def pred(cand, _sig=sig):
             try:
